@@ -3,6 +3,7 @@
   `<op> | <observation>`; prints `<model outcome> | <verdict>`.
 -/
 import Xandikos.Http.Spec
+import Xandikos.Http.Multiget
 import Xandikos.Driver.StoreDriver
 
 namespace Xandikos.HttpDriver
@@ -210,6 +211,57 @@ def step (h : HState) (line : String) : HState × String :=
            | _ => none
        ({ h with world := h.world.setColl cp { c with st := st2 } }, out ++ " | " ++ verdict v)
      | none => (h, "nosync | ok"))
+  | "MULTIGET" :: script :: kind :: hs =>
+    -- `hs`: the text of each DAV:href element as sent (`~`: an empty element, which Python reads
+    -- as None and prints as "None").  Observation: `mg =href:answer,…` sorted by href, where the
+    -- answer is `404` or `200;<etag|~>;<data token|~>`.
+    let want := if kind == "calendar" then HKind.ical else HKind.vcard
+    let hrefs := hs.map fun x => match field x with
+      | some t => readHrefEl t
+      | none => "None"
+    let showAns : MgAnswer → String
+      | .notFound => "404"
+      | .found e d => "200;" ++ (match e with | some e => pctEncode e | none => "~") ++ ";" ++
+          (match d with | some d => pctEncode d | none => "~")
+    let model := (multiget h.world want (fieldS script) hrefs).map fun (k, a) => (k, showAns a)
+    let sorted := model.toArray.qsort (fun a b => a.1 < b.1) |>.toList
+    let out := "mg =" ++ ",".intercalate (sorted.map fun (k, a) => pctEncode k ++ ":" ++ a)
+    -- monitor on the observation: every distinct href once; data only for an acknowledged member
+    -- of the right kind at that path, and then the acknowledged content with its strong ETag
+    let obsItems : List (String × String) := match words obsS with
+      | ["mg", l] => (((l.drop 1).toString.splitOn ",").filter (· ≠ "")).filterMap fun item =>
+          match item.splitOn ":" with
+          | [a, b] => some (pctDecode a, b)
+          | _ => none
+      | _ => []
+    let distinct := dedup hrefs
+    let keys := obsItems.map (·.1)
+    let v : Option String :=
+      if keys.any (fun k => (keys.filter (· == k)).length > 1) then some "C17:href-answered-more-than-once"
+      else if distinct.any (fun k => !keys.contains k) then some "C17:requested-href-not-answered"
+      else if keys.any (fun k => !distinct.contains k) then some "C17:answer-for-an-href-that-was-not-requested"
+      else
+        obsItems.findSome? fun (k, a) =>
+          let cur : Option String := (hrefToPath (fieldS script) k).bind fun p =>
+            let np := Path.normpathS p
+            if hasGitSegment np then none else
+            match h.abs.files[np]? with
+            | some t => if hkOfName (Path.splitS np).2 == want then some t else none
+            | none => none
+          match a.splitOn ";" with
+          | ["200", e, d] =>
+            if d == "~" then
+              (if cur.isSome then some ("C17:no-data-for-an-existing-member " ++ pctEncode k) else none)
+            else
+              (match cur with
+               | none => some ("C17:data-for-an-href-that-addresses-no-member-of-that-kind " ++ pctEncode k)
+               | some t =>
+                 if pctDecode d != t then some ("C17:data-is-not-the-current-content " ++ pctEncode k)
+                 else if pctDecode e != strong t then some ("C17:etag-is-not-the-current-etag " ++ pctEncode k)
+                 else none)
+          | ["404"] => if cur.isSome then some ("C17:existing-member-answered-404 " ++ pctEncode k) else none
+          | _ => some "C17:unparsed-answer"
+    (h, out ++ " | " ++ verdict v)
   | ["restart"] => ({ h with world := h.world.restart }, "restart | ok")
   | [] => (h, "")
   | _ => (h, "bad-op | ok")
